@@ -107,7 +107,7 @@ def run(report, tier, seed):
     nb = 10 if tier == "quick" else 120
     width = 60
     for k in range(nb):
-        kind = rng.choice(["uni2", "uni2", "uni3", "mixed", "big"])
+        kind = rng.choice(["uni2", "uni2", "uni3", "mixed", "big", "huge"])
         if kind == "uni2":
             na = nb_ = nc = (0, 1)
             A, B, C = ([rng.choice(uni2) for _ in range(width)] for _ in range(3))
@@ -119,6 +119,13 @@ def run(report, tier, seed):
             A = [rng.choice(uni2) for _ in range(width)]
             B = [{(rng.randint(0, 2),): rng.choice([-1, 1, 2])} for _ in range(width)]
             C = [rng.choice(uni2) for _ in range(width)]
+        elif kind == "huge":      # int64 coefficients whose differences do not fit in int64
+            na = nb_ = nc = (0, 1)
+            big = [2 ** 63 - 1, -(2 ** 63 - 1), 2 ** 62, -(2 ** 62), 2 ** 63 - 2, 1, -2, 0]
+
+            def hp():
+                return {m: rng.choice(big) for m in rng.sample([(0, 0), (1, 0), (0, 1), (1, 1), (2, 0)], rng.randint(1, 3))}
+            A, B, C = ([hp() for _ in range(width)] for _ in range(3))
         else:
             na = nb_ = nc = (0, 1, 2)
             deg = rng.randint(5, 9)
